@@ -1010,7 +1010,16 @@ def elementwise(I, op, a, b, cmp=False):
         b = ops.arr_from_items(b.items)
     if isinstance(a, SArr) and isinstance(b, SArr):
         if a.ndim != b.ndim:
-            raise Undecided("broadcasting between different ranks")
+            # numpy aligns trailing axes: (n, c) op (c,)
+            big, small, swap = (a, b, False) if a.ndim > b.ndim else (b, a, True)
+            off = big.ndim - small.ndim
+            for x, y in zip(big.shape[off:], small.shape):
+                if x is not y and not ctx.entails(Eq(x, y)):
+                    raise Undecided("broadcasting between different ranks whose trailing shapes are not provably equal")
+            dt = "bool" if cmp else result_dtype(op, a.dtype, b.dtype)
+            if swap:
+                return SArr(big.shape, lambda *i: f(small.fn(*i[off:]), big.fn(*i)), dt, "ndarray")
+            return SArr(big.shape, lambda *i: f(big.fn(*i), small.fn(*i[off:])), dt, "ndarray")
         for x, y in zip(a.shape, b.shape):
             if x is y:
                 continue
@@ -1200,7 +1209,9 @@ def iterate(I, it):
 
 def row(I, a, k):
     if a.ndim == 2:
-        return SArr((a.shape[1],), lambda j: a.fn(k, j), a.dtype, a.kind)
+        r = SArr((a.shape[1],), lambda j: a.fn(k, j), a.dtype, a.kind)
+        r.row_of = (a, k)
+        return r
     if a.ndim == 3:
         return SArr((a.shape[1], a.shape[2]), lambda j, l: a.fn(k, j, l), a.dtype, a.kind)
     raise Undecided("row of >3-d array")
@@ -1503,7 +1514,8 @@ def sk_ccl(I, args, kwargs):
     return None
 
 
-for _p in ("sklearn.metrics.mean_absolute_error", "sklearn.metrics.mean_squared_error", "sklearn.metrics.median_absolute_error"):
+for _p in ("sklearn.metrics.mean_absolute_error", "sklearn.metrics.mean_squared_error", "sklearn.metrics.median_absolute_error",
+           "sklearn.metrics.accuracy_score"):
     def _mk2(p):
         def f(I, args, kwargs):
             USED.add(f"{p}: external aggregate (mean / median of |e| or e^2 per column, then multioutput average), recorded")
@@ -1552,3 +1564,11 @@ def _logging(I, args, kwargs):
 def pd_ts_now(I, args, kwargs):
     I.ctx.note("pd.Timestamp.now() values are opaque")
     return Opaque("timestamp")
+
+
+@lib("itertools.chain")
+def _it_chain(I, args, kwargs):
+    out = []
+    for a in args:
+        out.extend(I.iter_concrete(a))
+    return SList(out, "list")
